@@ -68,6 +68,10 @@ class PathResult:
         self.by_simplify = 0
         self.by_solver = 0
         self.by_som = 0
+        self.cc_agree = 0
+        self.cc_unknown = 0
+        self.cc_unavailable = 0
+        self.cc_disagree = []
         self.nl = 0
         self.queries = 0
         self.t_solver = 0.0
@@ -113,6 +117,50 @@ def abstract_ufs(exprs):
         fresh = z3.Real(f"ufabs!{i}")
         out = [z3.substitute(e, (a, fresh)) for e in out]
     return out
+
+
+_CC = dict(n=0)
+
+
+def cross_check(formulas, every, pr):
+    """re-decide every k-th z3-unsat query with cvc5 (second solver, DESIGN.md 2.6)"""
+    if not every:
+        return
+    _CC["n"] += 1
+    if _CC["n"] % every:
+        return
+    try:
+        import cvc5
+    except Exception:
+        pr.cc_unavailable += 1
+        return
+    zs = z3.Solver()
+    zs.add(*formulas)
+    txt = zs.to_smt2()
+    try:
+        slv = cvc5.Solver()
+        slv.setOption("tlimit-per", "8000")
+        slv.setLogic("ALL")
+        ip = cvc5.InputParser(slv)
+        ip.setStringInput(cvc5.InputLanguage.SMT_LIB_2_6, txt, "q")
+        sm = ip.getSymbolManager()
+        res = None
+        while True:
+            cmd = ip.nextCommand()
+            if cmd.isNull():
+                break
+            out = cmd.invoke(slv, sm).strip()
+            if out in ("sat", "unsat", "unknown"):
+                res = out
+    except Exception as e:
+        pr.cc_unknown += 1
+        return
+    if res == "unsat":
+        pr.cc_agree += 1
+    elif res == "sat":
+        pr.cc_disagree.append(txt[:400])
+    else:
+        pr.cc_unknown += 1
 
 
 def _fresh_solver(c, timeout_ms, lemmas=()):
@@ -165,7 +213,7 @@ def prove_now(c, w, cond, timeout_ms=20000):
     return None, None
 
 
-def discharge(c, w, timeout_ms, collect_smt=None):
+def discharge(c, w, timeout_ms, cc_every=0):
     pr = PathResult()
     lin = []
     nl = []
@@ -206,6 +254,7 @@ def discharge(c, w, timeout_ms, collect_smt=None):
             pr.by_solver += len(lin)
             if pr.sample is None:
                 pr.sample = (lin[0][0].key, lin[0][1].sexpr()[:600])
+            cross_check(list(c.assumptions) + c.path_condition() + [z3.Or(*[z3.Not(t) for _ob, t in lin])], cc_every, pr)
         else:
             for ob, t in lin:
                 if len(pr.failed) >= 6:
@@ -283,6 +332,7 @@ def discharge(c, w, timeout_ms, collect_smt=None):
         pr.t_solver += time.time() - t0
         if r == z3.unsat:
             pr.by_solver += 1
+            cross_check(base, cc_every, pr)
             if ob.chain:
                 lemmas.append(t)
             if pr.sample is None:
@@ -339,7 +389,7 @@ def process_config(args):
     mod = importlib.import_module(modname)
     res = dict(
         key=cfg["key"], h=cfg["h"], paths=0, infeasible=0, forks=0, max_depth=0, obligations=0, trivial=0,
-        by_simplify=0, by_solver=0, nl=0, queries=0, t_solver=0.0, nontrivial_paths=0, solver_paths=0, structural=0, by_som=0, violations=[],
+        by_simplify=0, by_solver=0, nl=0, queries=0, t_solver=0.0, nontrivial_paths=0, solver_paths=0, structural=0, by_som=0, cc_agree=0, cc_unknown=0, cc_disagree=[], violations=[],
         unknown=[], error=None, inconclusive=None, sample=None, funcs=[], stubs=[], shadow=None,
     )
     timeout_ms = opts.get("timeout_ms", 10000)
@@ -409,7 +459,7 @@ def process_config(args):
                     if r == z3.unknown:
                         res["unknown"].append("path-feasibility")
                         continue
-                    pr = discharge(c, w, timeout_ms)
+                    pr = discharge(c, w, timeout_ms, opts.get('cc_every', 0))
                     res["obligations"] += pr.n_obs
                     res["trivial"] += pr.trivial
                     res["by_simplify"] += pr.by_simplify + pr.by_som
@@ -418,6 +468,9 @@ def process_config(args):
                     res["nl"] += pr.nl
                     res["queries"] += pr.queries + c.nq
                     res["t_solver"] += pr.t_solver + c.t_solver
+                    res["cc_agree"] += pr.cc_agree
+                    res["cc_unknown"] += pr.cc_unknown + pr.cc_unavailable
+                    res["cc_disagree"].extend(pr.cc_disagree)
                     res["structural"] += w.n_struct
                     res["by_solver"] += w.n_lemmas
                     res["trivial"] -= w.n_lemmas
@@ -573,6 +626,7 @@ def main(argv=None):
         cfgs = cfgs[:limit]
     opts = dict(getattr(mod, "OPTS", {}).get(tier, {}))
     opts.setdefault("timeout_ms", 10000 if tier == "quick" else 120000)
+    opts.setdefault("cc_every", 150 if tier == "quick" else 40)
     shadow_every = opts.get("shadow_every", 25)
     work = []
     for i, c in enumerate(cfgs):
@@ -599,7 +653,7 @@ def report(mod, prop, tier, seed, results, wall, verbose=False):
     skipped = [r for r in results if r.get("skipped")]
     results = [r for r in results if not r.get("skipped")]
     agg = dict(configs=len(results), paths=0, infeasible=0, forks=0, max_depth=0, obligations=0, trivial=0, by_simplify=0,
-               by_solver=0, nl=0, queries=0, t_solver=0.0, nontrivial=0, structural=0, solver_paths=0, by_som=0)
+               by_solver=0, nl=0, queries=0, t_solver=0.0, nontrivial=0, structural=0, solver_paths=0, by_som=0, cc_agree=0, cc_unknown=0)
     funcs, stubs = set(), set()
     samples = []
     inconclusive, errors, unknowns = [], [], []
@@ -607,7 +661,7 @@ def report(mod, prop, tier, seed, results, wall, verbose=False):
     shadow_runs = shadow_bad = 0
     per_h = {}
     for r in results:
-        for k in ("paths", "infeasible", "forks", "obligations", "trivial", "by_simplify", "by_solver", "nl", "queries", "t_solver", "structural", "solver_paths", "by_som"):
+        for k in ("paths", "infeasible", "forks", "obligations", "trivial", "by_simplify", "by_solver", "nl", "queries", "t_solver", "structural", "solver_paths", "by_som", "cc_agree", "cc_unknown"):
             agg[k] += r[k]
         agg["max_depth"] = max(agg["max_depth"], r["max_depth"])
         agg["nontrivial"] += r["nontrivial_paths"]
@@ -619,6 +673,8 @@ def report(mod, prop, tier, seed, results, wall, verbose=False):
         stubs.update(r["stubs"])
         if r["sample"] and len(samples) < 6 and not any(s["config"].split("/")[0] == r["sample"]["config"].split("/")[0] for s in samples):
             samples.append(r["sample"])
+        for txt in r.get("cc_disagree", []):
+            errors.append((r["key"], "second solver disagrees (z3 unsat, cvc5 sat): " + txt))
         if r["inconclusive"]:
             inconclusive.append((r["key"], r["inconclusive"]))
         if r["error"]:
@@ -733,6 +789,8 @@ def report(mod, prop, tier, seed, results, wall, verbose=False):
             functions_executed=sorted(funcs),
             solver=dict(name="z3", version=z3.get_version_string(), seconds_in_check=round(agg["t_solver"], 2), queries=agg["queries"]),
             shadow_runs=shadow_runs, shadow_disagreements=shadow_bad,
+            second_solver=dict(name="cvc5 (python wheel)", queries_rechecked=agg["cc_agree"] + agg["cc_unknown"], agree_unsat=agg["cc_agree"], cvc5_unknown_or_timeout=agg["cc_unknown"],
+                               rule="every k-th query that z3 answered unsat is exported with Solver.to_smt2() and re-decided; a cvc5 'sat' is a harness error"),
             samples=samples,
             known_findings_hit=sorted(known_hits.keys()),
             configurations_skipped_after_violations=len(skipped),
